@@ -153,8 +153,9 @@ Theorem C19_local_view_exact : forall G n mvars,
     forall k, lookup k L = if mem k mvars then spec_local G n k else None.
 Proof. exact to_local_exact. Qed.
 
-(* assembly_isolation (theories/L4Steps/IsolationExact.v), under the exact
-   naming condition:
+(* assembly_isolation (theories/L4Steps/IsolationExact.v), under a
+   SUFFICIENT naming condition (necessity is not proved; the third clause
+   cannot simply be dropped, see the witness below):
      names_ok ms              every component name is non-empty and does not
                               start with "_";
      mangling_unambiguous ms  for components c, d of the assembly, a hidden
@@ -167,8 +168,7 @@ Proof. exact to_local_exact. Qed.
    G consists of the components' mangled outputs.  Then a component's view
    contains only variables it declares; its hidden entries are outputs of
    the component of its name; its visible entries are visible outputs of the
-   same name: no value of another component's hidden variable reaches it.
-   The condition cannot be dropped (C19_underscore_names_can_leak below). *)
+   same name: no value of another component's hidden variable reaches it. *)
 Theorem C19_assembly_isolation : forall ms outs G c,
   names_ok ms -> mangling_unambiguous ms -> visible_clean ms ->
   from_outputs ms outs G -> In c ms ->
@@ -181,11 +181,17 @@ Theorem C19_assembly_isolation : forall ms outs G c,
       else exists rg, In rg outs /\ In (k, z) (visible_vars (fst rg)).
 Proof. exact assembly_isolation_exact. Qed.
 
-(* sufficient conditions for [names_ok] and [mangling_unambiguous]:
+(* sufficient conditions for [mangling_unambiguous] (1. also gives
+   [names_ok]):
    1. component names free of "_" ([names_plain]);
-   2. all declared hidden identifiers have one length (any names);
-   3. in particular: all declared hidden identifiers are "_goal" or "_hold",
-      which is what synthesized implementations declare (any names). *)
+   2. all declared hidden identifiers have one length;
+   3. all declared hidden identifiers are among "_goal", "_hold", "_goal'",
+      "_hold'", which is what synthesized implementations declare
+      (`AutomatonStepper.vars = aut.vars` holds the primed copies too):
+      within the unprimed and within the primed identifiers the lengths
+      agree, and a primed and an unprimed one differ in the last character.
+   In 2. and 3. nothing more is required of the component names (which
+   [names_ok] and [visible_clean] still restrict). *)
 Theorem C19_mangling_unambiguous_when :
   (forall ms, names_plain ms -> names_ok ms /\ mangling_unambiguous ms) /\
   (forall ms n, hidden_same_length ms n -> mangling_unambiguous ms) /\
@@ -210,10 +216,12 @@ Theorem C19_assembly_isolation_plain_names : forall ms outs G c,
 Proof. exact assembly_isolation_plain. Qed.
 
 (* the property's quantifier - assemblies of synthesized implementations,
-   whose hidden identifiers are "_goal" and "_hold": isolation for ANY
-   component names (not empty, not starting with "_"), including names with
-   underscores that are prefixes of one another ("a", "a_b", "cell_1",
-   "cell_10") *)
+   whose hidden identifiers are "_goal", "_hold" and their primed copies:
+   isolation for component names that are non-empty and do not start with
+   "_" ([names_ok]) and declared visible variables that do not look like
+   "d_..." for a component d ([visible_clean]); no further condition on the
+   names: they may contain underscores and be prefixes of one another ("a",
+   "a_b", "cell_1", "cell_10"; C19_isolation_hypotheses_satisfiable) *)
 Theorem C19_assembly_isolation_synthesized : forall ms outs G c,
   names_ok ms -> hidden_goal_hold ms -> visible_clean ms ->
   from_outputs ms outs G -> In c ms ->
@@ -231,8 +239,9 @@ Proof. exact assembly_isolation_synthesized. Qed.
    Component "a_b" has the hidden "_y" (value 7); component "a" declares the
    hidden "_b_y", never writes it, and copies what it reads there to "u".
    Both identifiers have the global name "a_b_y": names_ok and visible_clean
-   hold, mangling_unambiguous does not, nothing is signalled, and "a"
-   outputs the hidden value of "a_b". *)
+   hold, mangling_unambiguous does not, NOTHING IS SIGNALLED (a leak without
+   a collision), "a" outputs the hidden value of "a_b", and the conclusion
+   of C19_assembly_isolation is false for the initial state. *)
 Example C19_underscore_names_can_leak :
   names_ok leak_ms /\ visible_clean leak_ms /\ machines_ok leak_ms /\
   NoDup (map fst leak_ms) /\
@@ -240,32 +249,79 @@ Example C19_underscore_names_can_leak :
   (exists a, run omit1 leak_ms 1 = Ok a /\
              s_state a = Some [("a_b_y", 7%Z); ("u", 7%Z)]) /\
   to_local [("a_b_y", 7%Z); ("u", 0%Z)] "a" ["_b_y"; "u"]
-  = Ok [("_b_y", 7%Z); ("u", 0%Z)].
+  = Ok [("_b_y", 7%Z); ("u", 0%Z)] /\
+  asm_init leak_ms = Ok leak_G /\ from_outputs leak_ms leak_outs leak_G /\
+  ~ (exists L, to_local leak_G "a" (m_vars leak_a) = Ok L /\
+       forall k z, In (k, z) L ->
+         In k (m_vars leak_a) /\
+         if is_hidden k
+         then exists rg, In rg leak_outs /\
+                to_global (fst rg) "a" = Ok (snd rg) /\ In (k, z) (fst rg)
+         else exists rg, In rg leak_outs /\ In (k, z) (visible_vars (fst rg))).
 Proof. exact underscore_names_can_leak. Qed.
 
-(* non-vacuity of the synthesized case with such names: two components
-   "cell_1", "cell_10" that declare "_goal" / "_hold" *)
-Example C19_synthesized_names_example :
-  let m := {| m_vars := ["x"; "_goal"; "_hold"]; m_init := Ok [];
-              m_step := fun _ => Ok [] |} in
-  names_ok [("cell_1", m); ("cell_10", m)] /\
-  hidden_goal_hold [("cell_1", m); ("cell_10", m)] /\
-  visible_clean [("cell_1", m); ("cell_10", m)].
+(* non-vacuity, with machines that ARE steppers ([stepper_machine], whose
+   declared variables are names (a_decls A), primed copies included), names
+   with underscores one of which is a prefix of the other, and a non-empty
+   recorded state: all hypotheses of C19_assembly_isolation and of
+   C19_assembly_isolation_synthesized hold, and the views are the isolated
+   ones ("cell_1" does not see "cell_10_goal") *)
+Definition iso_A1 : automaton := {|
+  a_decls := [("x", [0; 1]%Z); ("y", [0; 1]%Z); ("_goal", [0; 1]%Z);
+              ("x'", [0; 1]%Z); ("y'", [0; 1]%Z); ("_goal'", [0; 1]%Z)];
+  a_init := fun _ => true; a_action := fun _ => true;
+  a_impl := ["y"; "_goal"] |}.
+Definition iso_A2 : automaton := {|
+  a_decls := [("y", [0; 1]%Z); ("z", [0; 1]%Z); ("_goal", [0; 1]%Z);
+              ("_hold", [0; 1]%Z); ("y'", [0; 1]%Z); ("z'", [0; 1]%Z);
+              ("_goal'", [0; 1]%Z); ("_hold'", [0; 1]%Z)];
+  a_init := fun _ => true; a_action := fun _ => true;
+  a_impl := ["z"; "_goal"; "_hold"] |}.
+Definition iso_ms : machines :=
+  [("cell_1", stepper_machine (@hd_error dict) (@hd_error dict) iso_A1);
+   ("cell_10", stepper_machine (@hd_error dict) (@hd_error dict) iso_A2)].
+Definition iso_outs : list (dict * dict) :=
+  [([("y", 1%Z); ("_goal", 0%Z)], [("y", 1%Z); ("cell_1_goal", 0%Z)]);
+   ([("z", 0%Z); ("_goal", 1%Z); ("_hold", 1%Z)],
+    [("z", 0%Z); ("cell_10_goal", 1%Z); ("cell_10_hold", 1%Z)])].
+Definition iso_G : dict :=
+  [("y", 1%Z); ("cell_1_goal", 0%Z);
+   ("z", 0%Z); ("cell_10_goal", 1%Z); ("cell_10_hold", 1%Z)].
+
+Example C19_isolation_hypotheses_satisfiable :
+  names_ok iso_ms /\ hidden_goal_hold iso_ms /\ mangling_unambiguous iso_ms /\
+  visible_clean iso_ms /\ from_outputs iso_ms iso_outs iso_G /\
+  to_local iso_G "cell_1" (names (a_decls iso_A1))
+  = Ok [("y", 1%Z); ("_goal", 0%Z)] /\
+  to_local iso_G "cell_10" (names (a_decls iso_A2))
+  = Ok [("y", 1%Z); ("z", 0%Z); ("_goal", 1%Z); ("_hold", 1%Z)].
 Proof.
-  intros m. split; [|split].
+  assert (GH : hidden_goal_hold iso_ms).
+  { intros c k [<-|[<-|[]]]; simpl; intuition (subst; try discriminate; auto). }
+  split; [|split; [exact GH|split; [exact (goal_hold_unambiguous _ GH)|split; [|split]]]].
   - intros nm [<-|[<-|[]]]; simpl; split; (discriminate || reflexivity).
-  - intros c k [<-|[<-|[]]]; simpl; intros [<-|[<-|[<-|[]]]] H;
-      (discriminate || auto).
   - intros c d [<-|[<-|[]]] [<-|[<-|[]]] k; simpl;
-      intros [<-|[<-|[<-|[]]]] H; (reflexivity || discriminate).
+      intuition (subst; try discriminate; auto).
+  - split; [|split].
+    + constructor; [|constructor; [|constructor]];
+        (split; [repeat constructor; simpl; intuition discriminate
+                |split; [simpl; tauto|reflexivity]]).
+    + reflexivity.
+    + repeat constructor; simpl; intuition discriminate.
+  - split; reflexivity.
 Qed.
 
-(* every state an assembly records does consist of mangled outputs, with
-   pairwise distinct global names *)
+(* every state an assembly records - by `step` and by `init` - does consist
+   of mangled outputs, with pairwise distinct global names *)
 Theorem C19_recorded_state_from_outputs : forall ms G G',
   machines_ok ms -> asm_step omit1 ms G = Ok G' ->
   exists outs, from_outputs ms outs G'.
 Proof. exact asm_step_from_outputs. Qed.
+
+Theorem C19_initial_state_from_outputs : forall ms G,
+  machines_ok ms -> asm_init ms = Ok G ->
+  exists outs, from_outputs ms outs G.
+Proof. exact asm_init_from_outputs. Qed.
 
 (* collisions are signalled, never resolved silently:
    unmangling that would map two keys to one name raises; a step in which
@@ -562,13 +618,15 @@ Print Assumptions C19_mangling_unambiguous_when.
 Print Assumptions C19_assembly_isolation_plain_names.
 Print Assumptions C19_assembly_isolation_synthesized.
 Print Assumptions C19_underscore_names_can_leak.
-Print Assumptions C19_synthesized_names_example.
+Print Assumptions C19_isolation_hypotheses_satisfiable.
 Print Assumptions C19_recorded_state_from_outputs.
+Print Assumptions C19_initial_state_from_outputs.
 Print Assumptions C19_collisions_signalled.
 Print Assumptions C19_assembly_step_sound.
 Print Assumptions C19_recorded_step_satisfies_action.
 Print Assumptions C19_stepper_machine_ok.
 Print Assumptions C19_mangle_refuted.
+Print Assumptions C19_mangle_refuted_loss.
 Print Assumptions C19_hypotheses_satisfiable.
 Print Assumptions C19_mangle_roundtrip_example.
 Print Assumptions C19_model_is_translated_code.
